@@ -559,6 +559,7 @@ public:
   ThreadSafeVector< Task > *pool_tasks = nullptr;
   long max_buffers_in_use = 0, max_tasks_in_use = 0;
   long total_buffers_taken = 0;
+  long buffers_taken_seen = 0; // per iteration, from the occupancy counter
   // Guard for runs with reduced pools: the property's premise is that the
   // pools are never exhausted. The occupancy counters are AtomicValues, so
   // every change passes through on_atomic(); when a pool comes within
@@ -568,7 +569,19 @@ public:
   bool pool_exhausted = false;
   virtual void on_atomic(const void *addr, int op, long pre, long post) {
     (void)pre;
-    if (pool_margin <= 0 || op < 0 || pool_exhausted)
+    if (op < 0)
+      return;
+    // occupancy seen directly (the RHD driver resets the pool statistics
+    // before its iteration-end record is taken)
+    if (pool_buffers &&
+        addr == (const void *)&pool_buffers->_memory_space._number_taken) {
+      max_buffers_in_use = std::max(max_buffers_in_use, post);
+      if (post > pre)
+        ++buffers_taken_seen;
+    } else if (pool_tasks && addr == (const void *)&pool_tasks->_number_taken) {
+      max_tasks_in_use = std::max(max_tasks_in_use, post);
+    }
+    if (pool_margin <= 0 || pool_exhausted)
       return;
     if ((pool_buffers &&
          addr == (const void *)&pool_buffers->_memory_space._number_taken &&
@@ -1236,6 +1249,8 @@ public:
         std::max(max_tasks_in_use, (long)tasks->get_max_number_taken());
     total_buffers_taken = std::max(total_buffers_taken,
                                    (long)buffers->get_total_number_elements());
+    total_buffers_taken = std::max(total_buffers_taken, buffers_taken_seen);
+    buffers_taken_seen = 0;
     if (launched != nphot)
       fail("launch-count", sfmt("iteration %d: %ld packets requested, %ld "
                                 "launched",
